@@ -756,7 +756,135 @@ func c05Crafted(r *kit.Rand) ([]byte, string) {
 	levels := kit.Pick(r, []int{8, 20, 40, 64, 200})
 	fan := kit.Pick(r, []int{2, 2, 3, 16})
 	what := ""
-	switch k := r.Intn(10); k {
+	switch k := r.Intn(12); k {
+	case 11: // a Type 3 font whose glyph procedures are anything but glyph procedures
+		what = "type3-glyph-procedures"
+		font := alloc()
+		procs := kit.XDict{}
+		var diffs kit.XArray
+		diffs = append(diffs, int64(65))
+		ng := 2 + r.Intn(6)
+		for i := 0; i < ng; i++ {
+			n := alloc()
+			var body string
+			switch r.Intn(7) {
+			case 0:
+				body = "500 0 d0 0 0 400 400 re f"
+			case 1:
+				body = "500 0 0 0 400 400 d1 0 0 400 400 re f"
+			case 2:
+				body = ""
+			case 3:
+				body = "q 0 0 100 100 re f Q"
+			case 4:
+				body = "% only a comment\n"
+			case 5:
+				body = "0 0 100 100 re f 500 0 d0"
+			default:
+				body = "BI /W 4 /H 4 /BPC 8 /CS /G ID 0123456789abcdef EI 500 0 d0"
+			}
+			stm := &kit.XStream{Dict: kit.XDict{}, Raw: []byte(body)}
+			if r.Chance(1, 4) {
+				// the data of a decoder with a helper goroutine where operators are expected
+				stm = &kit.XStream{Dict: kit.XDict{"Filter": kit.XName("DCTDecode")}, Raw: c08JPEG(r, 64+r.Intn(100), 64+r.Intn(100), r.Bool())}
+			} else if r.Chance(1, 3) {
+				stm = &kit.XStream{Dict: kit.XDict{"Filter": kit.XName("FlateDecode")}, Raw: kit.Deflate([]byte(body))}
+			}
+			rev.Actions[n] = kit.XAction{Value: stm}
+			name := fmt.Sprintf("g%d", i)
+			procs[name] = kit.XRef{Num: n}
+			diffs = append(diffs, kit.XName(name))
+		}
+		rev.Actions[font] = kit.XAction{Value: kit.XDict{"Type": kit.XName("Font"), "Subtype": kit.XName("Type3"),
+			"FontBBox": kit.XArray{int64(0), int64(0), int64(1000), int64(1000)}, "FontMatrix": kit.XArray{kit.XReal(0.001), int64(0), int64(0), kit.XReal(0.001), int64(0), int64(0)},
+			"CharProcs": procs, "Encoding": kit.XDict{"Type": kit.XName("Encoding"), "Differences": diffs},
+			"FirstChar": int64(65), "LastChar": int64(65 + ng - 1), "Widths": func() kit.XArray {
+				var w kit.XArray
+				for i := 0; i < ng; i++ {
+					w = append(w, int64(500))
+				}
+				return w
+			}(), "Resources": kit.XDict{}}}
+		content := alloc()
+		rev.Actions[content] = kit.XAction{Value: &kit.XStream{Dict: kit.XDict{}, Raw: []byte("BT /F1 12 Tf 10 10 Td (ABCDEFGH) Tj ET")}}
+		pg := alloc()
+		rev.Actions[pg] = kit.XAction{Value: kit.XDict{"Type": kit.XName("Page"), "Parent": kit.XRef{Num: 2},
+			"MediaBox": kit.XArray{int64(0), int64(0), int64(200), int64(200)}, "Contents": kit.XRef{Num: content},
+			"Resources": kit.XDict{"Font": kit.XDict{"F1": kit.XRef{Num: font}}}}}
+		pagesRoot["Kids"] = kit.XArray{kit.XRef{Num: pg}}
+		pagesRoot["Count"] = int64(1)
+	case 10: // linked lists hanging off a page whose links loop back into the middle of the list
+		what = "page-linked-list-loops"
+		pg := alloc()
+		page := kit.XDict{"Type": kit.XName("Page"), "Parent": kit.XRef{Num: 2},
+			"MediaBox": kit.XArray{int64(0), int64(0), int64(200), int64(200)}, "Resources": kit.XDict{}}
+		// loop builds k objects linked by key; the last one points to the j-th
+		loop := func(key string, mk func(i int, self, next, prev uint32) kit.XDict) (nums []uint32, shape string) {
+			k := 1 + r.Intn(6)
+			for i := 0; i < k; i++ {
+				nums = append(nums, alloc())
+			}
+			j := r.Intn(k + 1) // k: no loop
+			for i, n := range nums {
+				var next uint32
+				if i+1 < k {
+					next = nums[i+1]
+				} else if j < k {
+					next = nums[j]
+				}
+				prev := nums[max(0, i-1)]
+				rev.Actions[n] = kit.XAction{Value: mk(i, n, next, prev)}
+			}
+			return nums, fmt.Sprintf("%s:%d->%d", key, k, j)
+		}
+		action := func(next uint32) kit.XDict {
+			a := kit.XDict{"Type": kit.XName("Action"), "S": kit.XName("Named"), "N": kit.XName("NextPage")}
+			if r.Chance(1, 3) {
+				a = kit.XDict{"S": kit.XName("URI"), "URI": kit.XString("http://example.com/")}
+			}
+			if next != 0 {
+				a["Next"] = kit.XRef{Num: next}
+				if r.Chance(1, 3) {
+					a["Next"] = kit.XArray{kit.XRef{Num: next}, kit.XRef{Num: next}}
+				}
+			}
+			return a
+		}
+		acts, sh1 := loop("action", func(i int, self, next, prev uint32) kit.XDict { return action(next) })
+		navs, sh2 := loop("navnode", func(i int, self, next, prev uint32) kit.XDict {
+			d := kit.XDict{"Type": kit.XName("NavNode"), "NA": action(acts[0]), "Prev": kit.XRef{Num: prev}}
+			if next != 0 {
+				d["Next"] = kit.XRef{Num: next}
+			}
+			return d
+		})
+		thread := alloc()
+		beads, sh3 := loop("bead", func(i int, self, next, prev uint32) kit.XDict {
+			d := kit.XDict{"Type": kit.XName("Bead"), "T": kit.XRef{Num: thread}, "P": kit.XRef{Num: pg},
+				"R": kit.XArray{int64(0), int64(0), int64(50), int64(50)}, "V": kit.XRef{Num: prev}}
+			if next != 0 {
+				d["N"] = kit.XRef{Num: next}
+			}
+			return d
+		})
+		rev.Actions[thread] = kit.XAction{Value: kit.XDict{"Type": kit.XName("Thread"), "F": kit.XRef{Num: beads[0]}, "I": kit.XDict{"Title": kit.XString("t")}}}
+		cat["Threads"] = kit.XArray{kit.XRef{Num: thread}}
+		annot := alloc()
+		rev.Actions[annot] = kit.XAction{Value: kit.XDict{"Type": kit.XName("Annot"), "Subtype": kit.XName("Link"),
+			"Rect": kit.XArray{int64(0), int64(0), int64(50), int64(50)}, "A": kit.XRef{Num: acts[0]}, "P": kit.XRef{Num: pg}}}
+		page["PresSteps"] = kit.XRef{Num: navs[0]}
+		var barr kit.XArray
+		for _, b := range beads {
+			barr = append(barr, kit.XRef{Num: b})
+		}
+		page["B"] = barr
+		page["Annots"] = kit.XArray{kit.XRef{Num: annot}}
+		page["AA"] = kit.XDict{"O": kit.XRef{Num: acts[0]}, "C": action(acts[len(acts)-1])}
+		cat["OpenAction"] = kit.XRef{Num: acts[0]}
+		rev.Actions[pg] = kit.XAction{Value: page}
+		pagesRoot["Kids"] = kit.XArray{kit.XRef{Num: pg}}
+		pagesRoot["Count"] = int64(1)
+		what += "(" + sh1 + "," + sh2 + "," + sh3 + ")"
 	case 9: // embedded font programs with a long tail behind their end
 		if data, ok := c05FontTail(r); ok {
 			return data, "font-program-with-tail"
